@@ -120,7 +120,7 @@ def run(ctx):
                         'the position of the end-of-text token (where trailing empty nodes sit) is the end of the last token',
                         'an unclosed span must raise LexicalError (its position is not judged)']
     texts = []
-    for ml, mx in ((1, 4), (2, 2)) if ctx.quick else ((1, 5), (2, 3), (3, 2)):
+    for ml, mx in ((1, 4), (2, 2)) if ctx.quick else ((1, 5), (2, 3)):
         r = ctx.tlc('llparser/LLTexts.tla', 'SPECIFICATION Spec\nCHECK_DEADLOCK FALSE\nCONSTANTS\n  MaxLines = %d\n  MaxLen = %d\n  Emit = TRUE\n'
                     'INVARIANT Bounded\n' % (ml, mx), workers=16, timeout=3000, heap='12g')
         texts += [t for t in r.printed if isinstance(t, list)]
